@@ -1,70 +1,13 @@
 (* C04/Coherent.v — cache coherence as an invariant over arbitrary histories,
-   on the domain: no login timeout, no ambiguous lookup *)
+   for every login timeout and every clock.  Domain left: an accepted setUser
+   must not make the account match a hostmask that another account recognises
+   (the overlap test of setUser is literal: finding F6). *)
 From Coq Require Import List NArith ZArith Bool Lia.
 Import ListNotations.
-Require Import Base.Wire Base.PyStr C04.Model C04.Sound C04.Assoc.
+Require Import Base.Wire Base.PyStr C04.Model C04.Sound C04.Assoc C04.Prune C04.Shrink.
 Open Scope N_scope.
 
-(* ---- with timeout 0 nothing expires and lookups do not mutate accounts ---- *)
-Lemma expired_t0 now w : expired 0 now w = false.
-Proof. reflexivity. Qed.
-
-Definition recog0 (u : user) (h : str) : bool :=
-  existsb (fun e => seq_eqb h (snd e)) (u_auth u) || mask_match u h.
-
-Lemma recog_t0 now u h : recog 0 now u h = recog0 u h.
-Proof.
-  reflexivity.
-Qed.
-
-Lemma scan_auth_t0 eqf now h auth rem : snd (scan_auth eqf 0 now h auth rem) = rem.
-Proof.
-  revert rem. induction auth as [|[w m] auth IH]; intro rem; [reflexivity|].
-  cbn [scan_auth]. change (negb (Z.eqb 0 0) && Z.ltb (w + 0) now) with false. cbv iota.
-  destruct (eqf h m); [reflexivity|apply IH].
-Qed.
-
-Lemma checkHostmask_t0 istr now u h ua : fst (checkHostmask istr 0 now u h ua) = u.
-Proof.
-  unfold checkHostmask. destruct ua; [|reflexivity].
-  pose proof (scan_auth_t0 (if istr then ieq else seq_eqb) now h (u_auth u) []) as H.
-  destruct (scan_auth (if istr then ieq else seq_eqb) 0 now h (u_auth u) []) as [hit rem].
-  cbn [snd] in H. subst rem. cbn [fold_left]. destruct u; destruct hit; reflexivity.
-Qed.
-
-Lemma scan_users_t0 now h us : fst (scan_users 0 now h us) = us.
-Proof.
-  induction us as [|[i u] us IH]; [reflexivity|]. cbn [scan_users].
-  pose proof (checkHostmask_t0 false now u h true) as Hc.
-  destruct (checkHostmask false 0 now u h true) as [u' x]. cbn [fst] in Hc. subst u'.
-  destruct (scan_users 0 now h us) as [r' ids]. cbn [fst] in *. subst r'. reflexivity.
-Qed.
-
-Lemma overlap_one_t0 now self hm us : fst (overlap_one 0 now self hm us) = us.
-Proof.
-  induction us as [|[i u] us IH]; [reflexivity|]. cbn [overlap_one].
-  destruct (N.eqb i self).
-  - destruct (overlap_one 0 now self hm us) as [r' b]. cbn [fst] in *. subst. reflexivity.
-  - pose proof (checkHostmask_t0 true now u hm true) as Hc.
-    destruct (checkHostmask true 0 now u hm true) as [u' x]. cbn [fst] in Hc. subst u'.
-    destruct (truthy x); [reflexivity|].
-    destruct (existsb (fun other => hmatch hm other) (u_masks u)); [reflexivity|].
-    destruct (overlap_one 0 now self hm us) as [r' b]. cbn [fst] in *. subst. reflexivity.
-Qed.
-
-Lemma overlap_all_t0 now self hms us : fst (overlap_all 0 now self hms us) = us.
-Proof.
-  revert us. induction hms as [|hm hms IH]; intro us; [reflexivity|]. cbn [overlap_all].
-  pose proof (overlap_one_t0 now self hm us) as H1.
-  destruct (overlap_one 0 now self hm us) as [us' b]. cbn [fst] in H1. subst us'.
-  destruct b; [reflexivity|apply IH].
-Qed.
-
 (* ---- the invariant ---- *)
-(* account j recognises hostmask h (own mask or login) *)
-Definition R (s : st) (h : str) (j : N) : Prop :=
-  exists u, nget j (s_users s) = Some u /\ recog0 u h = true.
-
 Record CacheInv (s : st) : Prop := {
   i_fwd_rev : forall h j, dict_get h (s_hcache s) = Some j ->
                           exists l, nget j (s_hrev s) = Some l /\ In h l;
@@ -73,20 +16,82 @@ Record CacheInv (s : st) : Prop := {
   i_name : forall j n, nget j (s_nrev s) = Some n -> dict_get n (s_ncache s) = Some j
 }.
 
+
+(* account j does not recognise h, by mask or by any login (expired or not) *)
+Definition D1 (us : list (N * user)) (j : N) (h : str) : Prop :=
+  forall u, nget j us = Some u -> recog_ever u h = false.
+(* no account other than j does *)
+Definition D2 (us : list (N * user)) (j : N) (h : str) : Prop :=
+  forall k u, k <> j -> nget k us = Some u -> recog_ever u h = false.
+(* coherence: a cached answer j for h is the only possible answer: whenever j
+   recognises h (which the lookup re-checks), nobody else does *)
+Definition Coh (us : list (N * user)) (c : list (str * N)) : Prop :=
+  forall h j, dict_get h c = Some j -> D1 us j h \/ D2 us j h.
+Definition Live (us : list (N * user)) (c : list (str * N)) : Prop :=
+  forall h j, dict_get h c = Some j -> nget j us <> None.
+
 Record Inv (s : st) : Prop := {
   i_nodup : NoDup (map fst (s_users s));
   i_cache : CacheInv s;
-  (* coherence: every cached answer is an account that recognises the hostmask *)
-  i_coh : forall h j, dict_get h (s_hcache s) = Some j -> R s h j
+  i_live : Live (s_users s) (s_hcache s);
+  i_coh : Coh (s_users s) (s_hcache s)
 }.
 
 Definition init : st := St [] [] [] [] [] 0.
 
 Lemma Inv_init : Inv init.
 Proof.
-  split; [constructor| |intros h j H; discriminate].
+  split; [constructor| |intros h j H; discriminate|intros h j H; discriminate].
   split; intros; discriminate.
 Qed.
+
+Definition ids_bounded (s : st) : Prop :=
+  forall j u, nget j (s_users s) = Some u -> (j <= s_next s)%N.
+
+Lemma D1_pruned us us' j h : pruned us us' -> D1 us j h -> D1 us' j h.
+Proof.
+  intros Hp H u' Hu'. destruct (pruned_nget _ _ _ _ Hp Hu') as [u [Hu Hle]].
+  eapply le_user_false; [exact Hle|apply H; exact Hu].
+Qed.
+
+Lemma D2_pruned us us' j h : pruned us us' -> D2 us j h -> D2 us' j h.
+Proof.
+  intros Hp H k u' Hk Hu'. destruct (pruned_nget _ _ _ _ Hp Hu') as [u [Hu Hle]].
+  eapply le_user_false; [exact Hle|eapply H; eassumption].
+Qed.
+
+Definition csub (c' c : list (str * N)) : Prop := forall h j, dict_get h c' = Some j -> dict_get h c = Some j.
+
+Lemma Coh_sub us us' c c' : Coh us c -> pruned us us' -> csub c' c -> Coh us' c'.
+Proof.
+  intros H Hp Hs h j Hg. destruct (H _ _ (Hs _ _ Hg)) as [A|B]; [left; eapply D1_pruned|right; eapply D2_pruned]; eassumption.
+Qed.
+
+Lemma Live_sub us us' c c' : Live us c -> pruned us us' -> csub c' c -> Live us' c'.
+Proof.
+  intros HL Hp Hs h j Hg Hn. apply (HL _ _ (Hs _ _ Hg)).
+  destruct (nget j us) as [u|] eqn:E; [|reflexivity].
+  destruct (pruned_nget_fwd _ _ _ _ Hp E) as [u' [Hu' _]]. congruence.
+Qed.
+
+Lemma Inv_sub s s' :
+  Inv s -> pruned (s_users s) (s_users s') -> CacheInv s' -> csub (s_hcache s') (s_hcache s) -> Inv s'.
+Proof.
+  intros [Hnd _ HL Hc] Hp HC Hs. split.
+  - rewrite (pruned_keys _ _ Hp). exact Hnd.
+  - exact HC.
+  - eapply Live_sub; eassumption.
+  - eapply Coh_sub; eassumption.
+Qed.
+
+Lemma bounded_pruned s s' :
+  ids_bounded s -> pruned (s_users s) (s_users s') -> (s_next s <= s_next s')%N -> ids_bounded s'.
+Proof.
+  intros Hb Hp Hn j u' Hj. destruct (pruned_nget _ _ _ _ Hp Hj) as [u [Hu _]]. specialize (Hb _ _ Hu). lia.
+Qed.
+
+Lemma csub_refl c : csub c c.
+Proof. intros h j H. exact H. Qed.
 
 (* ---- invalidateCache(id) ---- *)
 Definition drop_loop (s1 : st) (id : N) :=
@@ -179,40 +184,35 @@ Proof. intros [A B C]. split; assumption. Qed.
 Lemma with_users_self s : with_users s (s_users s) = s.
 Proof. destruct s; reflexivity. Qed.
 
-Lemma R_other s s' h j :
-  (forall u, nget j (s_users s) = Some u -> nget j (s_users s') = Some u) -> R s h j -> R s' h j.
-Proof. intros H [u [Hu Hr]]. exists u. split; [apply H; exact Hu|exact Hr]. Qed.
 
-Definition ids_bounded (s : st) : Prop :=
-  forall j u, nget j (s_users s) = Some u -> (j <= s_next s)%N.
-
-(* ---- lookups ---- *)
-Lemma recognised_In t now s h id :
-  In id (recognised_by t now s h) -> NoDup (map fst (s_users s)) ->
-  exists u, nget id (s_users s) = Some u /\ recog t now u h = true.
+Lemma dict_set_absent {A} k (v : A) l : dict_get k l = None -> dict_set k v l = l ++ [(k, v)].
 Proof.
-  unfold recognised_by. intros Hin Hnd. apply in_map_iff in Hin as [[i u] [Hi Hin]]. cbn in Hi. subst i.
-  apply filter_In in Hin as [Hin Hr]. cbn [snd] in Hr. exists u. split; [apply In_nget; assumption|exact Hr].
+  induction l as [|[k' v'] l IH]; [reflexivity|]. cbn [dict_get dict_set app].
+  destruct (seq_eqb k k'); [discriminate|]. intro H. rewrite (IH H). reflexivity.
 Qed.
 
-Lemma lookup_preserves now s h :
-  Inv s -> ids_bounded s -> (length (recognised_by 0 now s h) <= 1)%nat ->
-  Inv (fst (getUserId 0 now s h)) /\ ids_bounded (fst (getUserId 0 now s h)).
+(* ---- lookups ---- *)
+Lemma miss_preserves t now s h :
+  Inv s -> ids_bounded s -> dict_get h (s_hcache s) = None ->
+  Inv (fst (lookup_miss t now s h)) /\ ids_bounded (fst (lookup_miss t now s h)).
 Proof.
-  intros [Hnd [I2 I3 I5] Hcoh] Hb Hlen. unfold getUserId.
-  destruct (dict_get h (s_hcache s)) as [id0|] eqn:Emiss; [split; [split; [|split|]|]; assumption|].
-  pose proof (scan_users_t0 now h (s_users s)) as Hus.
-  pose proof (scan_users_ids 0 now h (s_users s)) as Hids.
-  destruct (scan_users 0 now h (s_users s)) as [us ids]. cbn [fst snd] in Hus, Hids. subst us.
-  fold (recognised_by 0 now s h) in Hids.
+  intros HI Hb Emiss. pose proof HI as [Hnd HC HL Hcoh]. pose proof HC as [I2 I3 I5]. unfold lookup_miss.
+  pose proof (scan_users_pruned t now h (s_users s)) as Hp.
+  pose proof (scan_users_ids t now h (s_users s)) as Hids.
+  pose proof (scan_users_clean t now h (s_users s)) as Hclean.
+  destruct (scan_users t now h (s_users s)) as [us ids]. cbn [fst snd] in Hp, Hids, Hclean.
   destruct ids as [|[id x] [|e r]].
-  - cbn [fst]. rewrite with_users_self. split; [split; [|split|]|]; assumption.
-  - cbn [fst]. cbn [map fst] in Hids.
-    assert (HR : R s h id).
-    { assert (Hin : In id (recognised_by 0 now s h)) by (rewrite <- Hids; left; reflexivity).
-      destruct (recognised_In _ _ _ _ _ Hin Hnd) as [u [Hu Hr]]. exists u. split; [exact Hu|]. rewrite <- (recog_t0 now). exact Hr. }
-    split; [|exact Hb].
-    split; cbn [s_users s_hcache s_hrev s_ncache s_nrev]; [exact Hnd| |].
+  - cbn [fst]. split.
+    + apply (Inv_sub s); [exact HI|exact Hp|apply CacheInv_users; exact HC|apply csub_refl].
+    + apply (bounded_pruned s); [exact Hb|exact Hp|apply N.le_refl].
+  - cbn [fst]. cbn [map fst] in Hids. rewrite (dict_set_absent _ _ _ Emiss).
+    assert (Hid : nget id us <> None).
+    { assert (Hin : In id (map fst (filter (fun iu => recog t now (snd iu) h) (s_users s)))) by (rewrite <- Hids; left; reflexivity).
+      apply in_map_iff in Hin as [[i u] [Hi Hin]]. cbn in Hi. subst i. apply filter_In in Hin as [Hin _].
+      pose proof (In_nget _ _ _ Hnd Hin) as Hu. destruct (pruned_nget_fwd _ _ _ _ Hp Hu) as [u' [Hu' _]]. congruence. }
+    split; [|apply (bounded_pruned s); [exact Hb|exact Hp|apply N.le_refl]].
+    split; cbn [s_users s_hcache s_hrev s_ncache s_nrev].
+    + rewrite (pruned_keys _ _ Hp). exact Hnd.
     + split; cbn [s_users s_hcache s_hrev s_ncache s_nrev]; [| |exact I5].
       * intros h2 j Hg. rewrite dict_get_snoc in Hg.
         destruct (dict_get h2 (s_hcache s)) as [j0|] eqn:Eold.
@@ -232,7 +232,7 @@ Proof.
            assert (Hnew : forall l0, (nget id (s_hrev s) = Some l0 \/ (nget id (s_hrev s) = None /\ l0 = [])) ->
                    l = (if existsb (seq_eqb h) l0 then l0 else l0 ++ [h]) ->
                    NoDup l /\ forall h2, In h2 l -> dict_get h2 (s_hcache s ++ [(h, id)]) = Some id).
-           { intros l0 Hl0 El. 
+           { intros l0 Hl0 El.
              assert (Hold : NoDup l0 /\ forall h2, In h2 l0 -> dict_get h2 (s_hcache s) = Some id).
              { destruct Hl0 as [Hl0|[_ Hl0]]; [apply I3; exact Hl0|subst; split; [constructor|intros ? []]]. }
              destruct Hold as [Hnd0 Hall0].
@@ -253,160 +253,21 @@ Proof.
            intros h2 Hin. rewrite dict_get_snoc, (Hall' _ Hin). reflexivity.
     + intros h2 j Hg. rewrite dict_get_snoc in Hg.
       destruct (dict_get h2 (s_hcache s)) as [j0|] eqn:Eold.
-      * inversion Hg; subst j0. destruct (Hcoh _ _ Eold) as [u Hu]. exists u. exact Hu.
+      * inversion Hg; subst j0. eapply Live_sub; [exact HL|exact Hp|apply csub_refl|exact Eold].
+      * destruct (seq_eqb h2 h) eqn:Eh; [|discriminate]. inversion Hg; subst j. exact Hid.
+    + intros h2 j Hg. rewrite dict_get_snoc in Hg.
+      destruct (dict_get h2 (s_hcache s)) as [j0|] eqn:Eold.
+      * inversion Hg; subst j0. eapply Coh_sub; [exact Hcoh|exact Hp|apply csub_refl|exact Eold].
       * destruct (seq_eqb h2 h) eqn:Eh; [|discriminate]. inversion Hg; subst j. apply seq_eqb_eq in Eh. subst h2.
-        destruct HR as [u Hu]. exists u. exact Hu.
-  - exfalso. rewrite <- Hids in Hlen. cbn in Hlen. lia.
+        right. intros k u' Hk Hu'. apply (Hclean k u' Hu'). cbn [map fst]. intros [E|[]]. congruence.
+  - pose proof (remove_offending_pruned us ((id, x) :: e :: r)) as Hp2.
+    destruct (remove_offending us ((id, x) :: e :: r)) as [us' ex]. cbn [fst] in *.
+    assert (Hp3 : pruned (s_users s) us') by (eapply pruned_trans; eassumption).
+    split.
+    + apply (Inv_sub s); [exact HI|exact Hp3|apply CacheInv_users; exact HC|apply csub_refl].
+    + apply (bounded_pruned s); [exact Hb|exact Hp3|apply N.le_refl].
 Qed.
 
-(* ---- setUser ---- *)
-Lemma name_lookup_facts s0 name :
-  CacheInv s0 ->
-  CacheInv (fst (getUserIdByName s0 name))
-  /\ s_users (fst (getUserIdByName s0 name)) = s_users s0
-  /\ s_hcache (fst (getUserIdByName s0 name)) = s_hcache s0
-  /\ s_hrev (fst (getUserIdByName s0 name)) = s_hrev s0
-  /\ s_next (fst (getUserIdByName s0 name)) = s_next s0.
-Proof.
-  intros HC. pose proof HC as [I2 I3 I5]. unfold getUserIdByName.
-  destruct (dict_get (C03.Model.lower name) (s_ncache s0)) as [i|] eqn:Ec; [cbn [fst]; auto|].
-  destruct (find_name (C03.Model.lower name) (s_users s0)) as [i|]; [|cbn [fst]; auto].
-  cbn [fst s_users s_hcache s_hrev s_next]. split; [|auto].
-  split; cbn [s_hcache s_hrev]; [exact I2|exact I3|].
-  cbn [s_nrev s_ncache]. intros j n Hj.
-  destruct (N.eq_dec j i) as [E|E].
-  - subst j. rewrite nget_nset_same in Hj. inversion Hj; subst n. apply dict_get_set_same.
-  - rewrite nget_nset_other in Hj by exact E. pose proof (I5 _ _ Hj) as Hg.
-    rewrite dict_get_set_other; [exact Hg|]. apply seq_eqb_neq. intro En. subst n. congruence.
-Qed.
-
-Lemma rollback_restores id u users :
-  rollback (uget id users) id (match uget id users with Some _ => uset id u users | None => users end) = users.
-Proof.
-  unfold rollback. rewrite !uget_nget, ?uset_nset.
-  destruct (nget id users) as [u0|] eqn:E; [|reflexivity].
-  rewrite !uset_nset, nset_nset_same. apply nset_noop. exact E.
-Qed.
-
-Lemma Inv_same_users s s' :
-  Inv s -> s_users s' = s_users s -> s_hcache s' = s_hcache s -> CacheInv s' -> Inv s'.
-Proof.
-  intros [Hnd _ Hcoh] Hu Hc HC. split; [rewrite Hu; exact Hnd|exact HC|].
-  intros h j Hg. rewrite Hc in Hg. destruct (Hcoh _ _ Hg) as [x [Hx Hr]]. exists x. rewrite Hu. auto.
-Qed.
-
-Lemma set_preserves now s id u :
-  Inv s -> ids_bounded s ->
-  Inv (fst (setUser 0 now s id u)) /\ ids_bounded (fst (setUser 0 now s id u)).
-Proof.
-  intros HI Hb. pose proof HI as [Hnd HC Hcoh].
-  unfold setUser.
-  set (us0 := match uget id (s_users s) with Some _ => uset id u (s_users s) | None => s_users s end).
-  set (s0 := St us0 (s_hcache s) (s_hrev s) (s_ncache s) (s_nrev s) (N.max (s_next s) id)).
-  assert (HC0 : CacheInv s0) by (destruct HC as [A B C]; split; assumption).
-  destruct (name_lookup_facts s0 (u_name u) HC0) as [HC1 [Hu1 [Hc1 [Hr1 Hn1]]]].
-  destruct (getUserIdByName s0 (u_name u)) as [s1 r]. cbn [fst] in HC1, Hu1, Hc1, Hr1, Hn1.
-  change (s_users s0) with us0 in Hu1. change (s_hcache s0) with (s_hcache s) in Hc1.
-  change (s_hrev s0) with (s_hrev s) in Hr1. change (s_next s0) with (N.max (s_next s) id) in Hn1.
-  assert (Hroll : rollback (uget id (s_users s)) id us0 = s_users s) by apply rollback_restores.
-  assert (Hbound_old : forall s', s_users s' = s_users s -> s_next s' = N.max (s_next s) id -> ids_bounded s').
-  { intros s' Hu' Hn' j x Hj. rewrite Hu' in Hj. rewrite Hn'. specialize (Hb _ _ Hj). lia. }
-  destruct (match r with Ok other => negb (N.eqb other id) | Raise _ => false end).
-  { cbn [fst]. rewrite Hu1, Hroll. split.
-    - apply (Inv_same_users s); [exact HI|reflexivity|exact Hc1|apply CacheInv_users; exact HC1].
-    - apply Hbound_old; [reflexivity|exact Hn1]. }
-  pose proof (overlap_all_t0 now id (u_masks u) (s_users s1)) as Hov.
-  destruct (overlap_all 0 now id (u_masks u) (s_users s1)) as [us1 dup]. cbn [fst] in Hov. subst us1.
-  destruct dup.
-  { cbn [fst]. rewrite Hu1, Hroll. split.
-    - apply (Inv_same_users s); [exact HI|reflexivity|exact Hc1|apply CacheInv_users; apply CacheInv_users; exact HC1].
-    - apply Hbound_old; [reflexivity|exact Hn1]. }
-  rewrite with_users_self.
-  destruct (invalidate_id_ok s1 id HC1) as [s3 [Hinv [Hu3 [Hn3 [Hiff HC3]]]]].
-  rewrite Hinv. cbn [fst].
-  assert (Hfinal : uset id u (s_users s3) = nset id u (s_users s)).
-  { rewrite Hu3, Hu1. unfold us0. rewrite !uget_nget, !uset_nset.
-    destruct (nget id (s_users s)); [apply nset_nset_same|reflexivity]. }
-  rewrite Hfinal. split.
-  - split; cbn [s_users s_hcache].
-    + apply NoDup_nset. exact Hnd.
-    + apply CacheInv_users. exact HC3.
-    + intros h j Hg. apply Hiff in Hg as [Hg Hne]. rewrite Hc1 in Hg.
-      apply (R_other s); [|apply Hcoh; exact Hg].
-      intros x Hx. unfold with_users. cbn [s_users]. rewrite nget_nset_other by exact Hne. exact Hx.
-  - intros j x Hj. unfold with_users in *. cbn [s_users s_next] in *. rewrite Hn3, Hn1.
-    destruct (N.eq_dec j id) as [E|E]; [subst; lia|].
-    rewrite nget_nset_other in Hj by exact E. specialize (Hb _ _ Hj). lia.
-Qed.
-
-(* ---- delUser / newUser / addAuth ---- *)
-Lemma del_preserves s id :
-  Inv s -> ids_bounded s -> Inv (fst (delUser s id)) /\ ids_bounded (fst (delUser s id)).
-Proof.
-  intros HI Hb. pose proof HI as [Hnd HC Hcoh]. unfold delUser.
-  destruct (uget id (s_users s)); [|split; assumption].
-  destruct (invalidate_id_ok (with_users s (udel id (s_users s))) id (CacheInv_users _ _ HC))
-    as [s1 [Hinv [Hu [Hn [Hiff HC1]]]]].
-  rewrite Hinv. cbn [fst]. unfold with_users in Hu, Hn, Hiff. cbn [s_users s_next s_hcache] in Hu, Hn, Hiff.
-  split.
-  - split.
-    + rewrite Hu. rewrite udel_ndel. apply NoDup_ndel. exact Hnd.
-    + exact HC1.
-    + intros h j Hg. apply Hiff in Hg as [Hg Hne].
-      apply (R_other s); [|apply Hcoh; exact Hg].
-      intros x Hx. rewrite Hu, udel_ndel. rewrite nget_ndel_other by exact Hne. exact Hx.
-  - intros j x Hj. rewrite Hu, udel_ndel in Hj. rewrite Hn.
-    destruct (N.eq_dec j id) as [E|E]; [subst; rewrite nget_ndel_same in Hj; discriminate|].
-    rewrite nget_ndel_other in Hj by exact E. exact (Hb _ _ Hj).
-Qed.
-
-Lemma new_preserves s :
-  Inv s -> ids_bounded s -> Inv (fst (newUser s)) /\ ids_bounded (fst (newUser s)).
-Proof.
-  intros [Hnd [I2 I3 I5] Hcoh] Hb. unfold newUser. cbn [fst]. rewrite uset_nset.
-  assert (Hfresh : forall j x, nget j (s_users s) = Some x -> j <> s_next s + 1).
-  { intros j x Hj E. specialize (Hb _ _ Hj). lia. }
-  split.
-  - split; cbn [s_users s_hcache s_hrev s_ncache s_nrev].
-    + apply NoDup_nset. exact Hnd.
-    + split; assumption.
-    + intros h j Hg. destruct (Hcoh _ _ Hg) as [x [Hx Hr]]. exists x. split; [|exact Hr].
-      cbn [s_users]. rewrite nget_nset_other; [exact Hx|]. eapply Hfresh. exact Hx.
-  - intros j x Hj. cbn [s_users s_next] in *.
-    destruct (N.eq_dec j (s_next s + 1)) as [E|E]; [subst; lia|].
-    rewrite nget_nset_other in Hj by exact E. specialize (Hb _ _ Hj). lia.
-Qed.
-
-Lemma addAuth_keeps_recog now u h u' h2 :
-  addAuth now u h = Ok u' -> recog0 u h2 = true -> recog0 u' h2 = true.
-Proof.
-  unfold addAuth. destruct (truthy (first_match (u_masks u) h) || negb (u_secure u)); [|discriminate].
-  intro H. inversion H; subst u'. unfold recog0, mask_match. cbn [u_auth u_masks].
-  rewrite dedupe_masks. rewrite existsb_app. intro Hr.
-  apply orb_true_iff in Hr as [Hr|Hr]; [rewrite Hr; reflexivity|rewrite Hr; apply orb_true_r].
-Qed.
-
-Lemma auth_preserves now s id h :
-  Inv s -> ids_bounded s -> Inv (fst (opAddAuth now s id h)) /\ ids_bounded (fst (opAddAuth now s id h)).
-Proof.
-  intros HI Hb. pose proof HI as [Hnd HC Hcoh]. unfold opAddAuth. rewrite uget_nget.
-  destruct (nget id (s_users s)) as [u|] eqn:Eu; [|split; assumption].
-  destruct (addAuth now u h) as [u'|e] eqn:Ea; [|split; assumption].
-  cbn [fst]. rewrite uset_nset. unfold with_users. split.
-  - split; cbn [s_users s_hcache].
-    + apply NoDup_nset. exact Hnd.
-    + destruct HC as [A B C]. split; assumption.
-    + intros h2 j Hg. destruct (Hcoh _ _ Hg) as [x [Hx Hr]].
-      destruct (N.eq_dec j id) as [E|E].
-      * subst j. rewrite Eu in Hx. inversion Hx; subst x. exists u'. split; [cbn [s_users]; apply nget_nset_same|].
-        eapply addAuth_keeps_recog; eassumption.
-      * exists x. split; [cbn [s_users]; rewrite nget_nset_other by exact E; exact Hx|exact Hr].
-  - intros j x Hj. cbn [s_users s_next] in *.
-    destruct (N.eq_dec j id) as [E|E]; [subst; exact (Hb _ _ Eu)|].
-    rewrite nget_nset_other in Hj by exact E. exact (Hb _ _ Hj).
-Qed.
-
-(* ---- clearAuth ---- *)
 Lemma invalidate_h_ok s h :
   CacheInv s ->
   exists s', invalidate_h s h = Ok s'
@@ -464,13 +325,13 @@ Qed.
 
 Lemma invalidate_fold_ok (masks : list (Z * str)) s :
   CacheInv s ->
-  exists s', fold_left (fun (acc : res st) e => do a <- acc; invalidate_h a (snd e)) masks (Ok s) = Ok s'
+  exists s', invalidate_auth s masks = Ok s'
     /\ s_users s' = s_users s /\ s_next s' = s_next s
     /\ (forall h2 j, dict_get h2 (s_hcache s') = Some j -> dict_get h2 (s_hcache s) = Some j)
     /\ (forall e, In e masks -> dict_get (snd e) (s_hcache s') = None)
     /\ CacheInv s'.
 Proof.
-  revert s. induction masks as [|e masks IH]; intros s HC.
+  unfold invalidate_auth. revert s. induction masks as [|e masks IH]; intros s HC.
   - exists s. split; [reflexivity|]. split; [reflexivity|]. split; [reflexivity|]. split; [auto|]. split; [intros e []|exact HC].
   - cbn [fold_left bind]. destruct (invalidate_h_ok s (snd e) HC) as [s1 [H1 [Hu1 [Hn1 [Hsub1 [Hnone1 HC1]]]]]].
     rewrite H1. destruct (IH s1 HC1) as [s' [H' [Hu' [Hn' [Hsub' [Hnone' HC']]]]]].
@@ -481,137 +342,562 @@ Proof.
     apply Hsub' in Eg. congruence.
 Qed.
 
+
+Lemma lookup_preserves t now s h :
+  Inv s -> ids_bounded s ->
+  Inv (fst (getUserId t now s h)) /\ ids_bounded (fst (getUserId t now s h)).
+Proof.
+  intros HI Hb. pose proof HI as [Hnd HC HL Hcoh]. unfold getUserId.
+  destruct (dict_get h (s_hcache s)) as [id|] eqn:Eg; [|apply miss_preserves; assumption].
+  rewrite uget_nget. destruct (nget id (s_users s)) as [u|] eqn:Eu; [|exfalso; exact (HL _ _ Eg Eu)].
+  pose proof (le_user_checkHostmask false t now u h true) as Hle.
+  destruct (checkHostmask false t now u h true) as [u' x]. cbn [fst] in Hle.
+  cbv zeta. rewrite uset_nset.
+  assert (Hp1 : pruned (s_users s) (s_users (with_users s (nset id u' (s_users s))))).
+  { cbn [with_users s_users]. apply (pruned_nset _ _ u); assumption. }
+  assert (HI1 : Inv (with_users s (nset id u' (s_users s)))).
+  { apply (Inv_sub s); [exact HI|exact Hp1|apply CacheInv_users; exact HC|apply csub_refl]. }
+  assert (Hb1 : ids_bounded (with_users s (nset id u' (s_users s)))).
+  { apply (bounded_pruned s); [exact Hb|exact Hp1|apply N.le_refl]. }
+  destruct (truthy x); [split; assumption|].
+  destruct (invalidate_h_ok _ h (i_cache _ HI1)) as [s2 [Hinv [Hu2 [Hn2 [Hsub [Hnone HC2]]]]]].
+  rewrite Hinv. apply miss_preserves; [| |exact Hnone].
+  - apply (Inv_sub (with_users s (nset id u' (s_users s)))); [exact HI1|rewrite Hu2; apply pruned_refl|exact HC2|exact Hsub].
+  - apply (bounded_pruned (with_users s (nset id u' (s_users s)))); [exact Hb1|rewrite Hu2; apply pruned_refl|rewrite Hn2; apply N.le_refl].
+Qed.
+
+(* ---- setUser ---- *)
+Lemma name_lookup_facts s0 name :
+  CacheInv s0 ->
+  CacheInv (fst (getUserIdByName s0 name))
+  /\ s_users (fst (getUserIdByName s0 name)) = s_users s0
+  /\ s_hcache (fst (getUserIdByName s0 name)) = s_hcache s0
+  /\ s_hrev (fst (getUserIdByName s0 name)) = s_hrev s0
+  /\ s_next (fst (getUserIdByName s0 name)) = s_next s0.
+Proof.
+  intros HC. pose proof HC as [I2 I3 I5]. unfold getUserIdByName.
+  destruct (dict_get (C03.Model.lower name) (s_ncache s0)) as [i|] eqn:Ec; [cbn [fst]; auto|].
+  destruct (find_name (C03.Model.lower name) (s_users s0)) as [i|]; [|cbn [fst]; auto].
+  cbn [fst s_users s_hcache s_hrev s_next]. split; [|auto].
+  split; cbn [s_hcache s_hrev]; [exact I2|exact I3|].
+  cbn [s_nrev s_ncache]. intros j n Hj.
+  destruct (N.eq_dec j i) as [E|E].
+  - subst j. rewrite nget_nset_same in Hj. inversion Hj; subst n. apply dict_get_set_same.
+  - rewrite nget_nset_other in Hj by exact E. pose proof (I5 _ _ Hj) as Hg.
+    rewrite dict_get_set_other; [exact Hg|]. apply seq_eqb_neq. intro En. subst n. congruence.
+Qed.
+
+Lemma rollback_restores id u users :
+  rollback (uget id users) id (match uget id users with Some _ => uset id u users | None => users end) = users.
+Proof.
+  unfold rollback. rewrite !uget_nget, ?uset_nset.
+  destruct (nget id users) as [u0|] eqn:E; [|reflexivity].
+  rewrite !uset_nset, nset_nset_same. apply nset_noop. exact E.
+Qed.
+
+
+Definition auth_masks (u : user) : list str := map snd (u_auth u).
+
+Lemma no_login_ever u h : ~ In h (auth_masks u) -> mask_match u h = false -> recog_ever u h = false.
+Proof.
+  intros Hni Hm. unfold recog_ever. rewrite Hm, orb_false_r.
+  destruct (existsb (fun e => seq_eqb h (snd e)) (u_auth u)) eqn:E; [|reflexivity].
+  exfalso. apply existsb_exists in E as [e [Hin He]]. apply seq_eqb_eq in He. apply Hni.
+  unfold auth_masks. apply in_map_iff. exists e. auto.
+Qed.
+
+Lemma rollback_pruned id u users us1 :
+  pruned (match uget id users with Some _ => uset id u users | None => users end) us1 ->
+  pruned users (rollback (uget id users) id us1).
+Proof.
+  unfold rollback. rewrite !uget_nget. destruct (nget id users) as [u0|] eqn:E; [|exact (fun H => H)].
+  rewrite !uset_nset. apply pruned_rollback. exact E.
+Qed.
+
+(* setUser from a state in which the stored record of [id] may already have
+   been edited in place: the cache has to be coherent only for the hostmasks
+   the account is not logged in from (those entries are dropped first). *)
+Lemma set_gen t now s id u :
+  NoDup (map fst (s_users s)) -> CacheInv s -> Live (s_users s) (s_hcache s) -> ids_bounded s ->
+  (forall h j, dict_get h (s_hcache s) = Some j -> ~ In h (auth_masks u) -> D1 (s_users s) j h \/ D2 (s_users s) j h) ->
+  (snd (setUser t now s id u) = Ok tt ->
+   forall h j, dict_get h (s_hcache s) = Some j -> j <> id -> mask_match u h = true -> D2 (s_users s) j h -> D1 (s_users s) j h) ->
+  Inv (fst (setUser t now s id u)) /\ ids_bounded (fst (setUser t now s id u)).
+Proof.
+  intros Hnd HC HL Hb Hc. unfold setUser.
+  set (us0 := match uget id (s_users s) with Some _ => uset id u (s_users s) | None => s_users s end).
+  set (s00 := St us0 (s_hcache s) (s_hrev s) (s_ncache s) (s_nrev s) (N.max (s_next s) id)).
+  assert (HC00 : CacheInv s00) by (destruct HC as [A B C]; split; assumption).
+  destruct (invalidate_fold_ok (u_auth u) s00 HC00) as [s0 [Hf [Hu0 [Hn0 [Hsub0 [Hnone0 HC0]]]]]].
+  rewrite Hf.
+  change (s_users s00) with us0 in Hu0. change (s_next s00) with (N.max (s_next s) id) in Hn0.
+  change (s_hcache s00) with (s_hcache s) in Hsub0.
+  destruct (name_lookup_facts s0 (u_name u) HC0) as [HC1 [Hu1 [Hc1 [Hr1 Hn1]]]].
+  destruct (getUserIdByName s0 (u_name u)) as [s1 r]. cbn [fst] in HC1, Hu1, Hc1, Hr1, Hn1.
+  rewrite Hu0 in Hu1. rewrite Hn0 in Hn1.
+  (* entries that survive the first invalidation are not login hostmasks of u *)
+  assert (Hnotauth : forall h j, dict_get h (s_hcache s0) = Some j -> ~ In h (auth_masks u)).
+  { intros h j Hg Hin. unfold auth_masks in Hin. apply in_map_iff in Hin as [e [He Hin]]. subst h.
+    rewrite (Hnone0 _ Hin) in Hg. discriminate. }
+  assert (Hnd0 : NoDup (map fst us0)).
+  { unfold us0. rewrite uget_nget. destruct (nget id (s_users s)); [rewrite uset_nset; apply NoDup_nset|]; exact Hnd. }
+  (* the two refusals: the stored record is put back *)
+  assert (Hfail : forall s' us1, pruned us0 us1 -> CacheInv s' ->
+            s_users s' = rollback (uget id (s_users s)) id us1 ->
+            csub (s_hcache s') (s_hcache s0) -> s_next s' = N.max (s_next s) id ->
+            Inv s' /\ ids_bounded s').
+  { intros s' us1 Hp HC' Hu' Hs' Hn'.
+    assert (Hp' : pruned (s_users s) (s_users s')) by (rewrite Hu'; apply (rollback_pruned id u); exact Hp).
+    split.
+    - split.
+      + rewrite (pruned_keys _ _ Hp'). exact Hnd.
+      + exact HC'.
+      + eapply Live_sub; [exact HL|exact Hp'|]. intros h j Hg. apply Hsub0. apply Hs'. exact Hg.
+      + intros h j Hg. pose proof (Hs' _ _ Hg) as Hg0.
+        destruct (Hc _ _ (Hsub0 _ _ Hg0) (Hnotauth _ _ Hg0)) as [A|B];
+          [left; eapply D1_pruned|right; eapply D2_pruned]; eassumption.
+    - intros j x Hj. destruct (pruned_nget _ _ _ _ Hp' Hj) as [x0 [Hx0 _]]. rewrite Hn'. specialize (Hb _ _ Hx0). lia. }
+  destruct (match r with Ok other => negb (N.eqb other id) | Raise _ => false end).
+  { intros _. cbn [fst]. apply (Hfail _ us0).
+    - apply pruned_refl.
+    - apply CacheInv_users. exact HC1.
+    - cbn [with_users s_users]. rewrite Hu1. reflexivity.
+    - cbn [with_users s_hcache]. rewrite Hc1. apply csub_refl.
+    - cbn [with_users s_next]. exact Hn1. }
+  pose proof (overlap_all_pruned t now id (u_masks u) (s_users s1)) as Hov.
+  destruct (overlap_all t now id (u_masks u) (s_users s1)) as [us1 dup]. cbn [fst] in Hov. rewrite Hu1 in Hov.
+  destruct dup.
+  { intros _. cbn [fst]. apply (Hfail _ us1).
+    - exact Hov.
+    - apply CacheInv_users. apply CacheInv_users. exact HC1.
+    - reflexivity.
+    - cbn [with_users s_hcache]. rewrite Hc1. apply csub_refl.
+    - cbn [with_users s_next]. exact Hn1. }
+  destruct (invalidate_id_ok (with_users s1 us1) id (CacheInv_users _ _ HC1)) as [s3 [Hinv [Hu3 [Hn3 [Hiff HC3]]]]].
+  rewrite Hinv. cbn [fst snd]. intro Hdom. specialize (Hdom eq_refl).
+  cbn [with_users s_users s_next s_hcache] in Hu3, Hn3, Hiff. rewrite Hc1 in Hiff. rewrite Hn1 in Hn3.
+  rewrite Hu3, uset_nset.
+  (* accounts other than id: a pruned copy of what they were in s *)
+  assert (Hother : forall j x, j <> id -> nget j us1 = Some x ->
+             exists x0, nget j (s_users s) = Some x0 /\ le_user x x0).
+  { intros j x Hne Hj. destruct (pruned_nget _ _ _ _ Hov Hj) as [x0 [Hx0 Hle]]. exists x0. split; [|exact Hle].
+    unfold us0 in Hx0. rewrite uget_nget in Hx0. destruct (nget id (s_users s)); [|exact Hx0].
+    rewrite uset_nset, nget_nset_other in Hx0 by exact Hne. exact Hx0. }
+  assert (HD1 : forall j h, j <> id -> D1 (s_users s) j h -> D1 (nset id u us1) j h).
+  { intros j h Hne HD x Hx. rewrite nget_nset_other in Hx by exact Hne.
+    destruct (Hother _ _ Hne Hx) as [x0 [Hx0 Hle]]. eapply le_user_false; [exact Hle|apply HD; exact Hx0]. }
+  split.
+  - split; cbn [with_users s_users s_hcache].
+    + apply NoDup_nset. rewrite (pruned_keys _ _ Hov). exact Hnd0.
+    + apply CacheInv_users. exact HC3.
+    + intros h j Hg. apply Hiff in Hg as [Hg Hne]. rewrite nget_nset_other by exact Hne.
+      pose proof (HL _ _ (Hsub0 _ _ Hg)) as Hlive. intro Hn. apply Hlive.
+      destruct (nget j (s_users s)) as [x0|] eqn:Ex0; [|reflexivity]. exfalso.
+      assert (Hx0' : nget j us0 = Some x0).
+      { unfold us0. rewrite uget_nget. destruct (nget id (s_users s)); [|exact Ex0].
+        rewrite uset_nset, nget_nset_other by exact Hne. exact Ex0. }
+      destruct (pruned_nget_fwd _ _ _ _ Hov Hx0') as [x [Hx _]]. congruence.
+    + intros h j Hg. apply Hiff in Hg as [Hg Hne].
+      pose proof (Hnotauth _ _ Hg) as Hna.
+      destruct (Hc _ _ (Hsub0 _ _ Hg) Hna) as [A|B]; [left; apply HD1; assumption|].
+      destruct (mask_match u h) eqn:Em.
+      * left. apply HD1; [exact Hne|]. apply (Hdom h j); try assumption. apply Hsub0. exact Hg.
+      * right. intros k x Hk Hx. destruct (N.eq_dec k id) as [E|E].
+        -- subst k. rewrite nget_nset_same in Hx. inversion Hx; subst x. apply no_login_ever; assumption.
+        -- rewrite nget_nset_other in Hx by exact E. destruct (Hother _ _ E Hx) as [x0 [Hx0 Hle]].
+           eapply le_user_false; [exact Hle|eapply B; eassumption].
+  - intros j x Hj. cbn [with_users s_users s_next] in *. rewrite Hn3.
+    destruct (N.eq_dec j id) as [E|E]; [subst; lia|].
+    rewrite nget_nset_other in Hj by exact E. destruct (Hother _ _ E Hj) as [x0 [Hx0 _]]. specialize (Hb _ _ Hx0). lia.
+Qed.
+
+(* the domain left (finding F6): when setUser accepts (id, u), a hostmask that
+   u's masks match and that the stored record of id did not recognise is
+   recognised by no other account, by mask or by a login hostmask.  setUser
+   itself only tests this literally. *)
+Definition set_dom (s : st) (id : N) (u : user) : Prop :=
+  forall h j uj, j <> id -> nget j (s_users s) = Some uj -> mask_match u h = true ->
+    (forall uo, nget id (s_users s) = Some uo -> recog_ever uo h = false) ->
+    recog_ever uj h = false.
+
+Lemma set_preserves t now s id u :
+  Inv s -> ids_bounded s -> (snd (setUser t now s id u) = Ok tt -> set_dom s id u) ->
+  Inv (fst (setUser t now s id u)) /\ ids_bounded (fst (setUser t now s id u)).
+Proof.
+  intros [Hnd HC HL Hcoh] Hb Hdom. apply set_gen; try assumption.
+  - intros h j Hg _. apply Hcoh. exact Hg.
+  - intros Hok h j Hg Hne Hm HD2 uj Huj. apply (Hdom Hok h j uj Hne Huj Hm).
+    intros uo Huo. apply (HD2 id uo); [congruence|exact Huo].
+Qed.
+
+(* ---- identify: addAuth on the stored record, then setUser ---- *)
+Lemma addAuth_shape now u h u' :
+  addAuth now u h = Ok u' -> u' = User (u_name u) (u_masks u) (dedupe_auth (u_auth u ++ [(now, h)])) (u_secure u).
+Proof.
+  unfold addAuth. destruct (truthy (first_match (u_masks u) h) || negb (u_secure u)); [|discriminate].
+  intro H. inversion H. reflexivity.
+Qed.
+
+Lemma addAuth_ever now u h u' h2 :
+  addAuth now u h = Ok u' -> recog_ever u' h2 = recog_ever u h2 || seq_eqb h2 h.
+Proof.
+  intro H. apply addAuth_shape in H. subst u'. unfold recog_ever, mask_match. cbn [u_auth u_masks].
+  rewrite dedupe_masks, existsb_app. cbn [existsb snd]. rewrite orb_false_r.
+  destruct (existsb (fun e => seq_eqb h2 (snd e)) (u_auth u)), (seq_eqb h2 h), (existsb (fun p => hmatch p h2) (u_masks u)); reflexivity.
+Qed.
+
+Lemma addAuth_mask now u h u' h2 : addAuth now u h = Ok u' -> mask_match u' h2 = mask_match u h2.
+Proof. intro H. apply addAuth_shape in H. subst u'. reflexivity. Qed.
+
+Lemma addAuth_login now u h u' : addAuth now u h = Ok u' -> In h (auth_masks u').
+Proof.
+  intro H. pose proof (addAuth_shape _ _ _ _ H) as Hs.
+  assert (E : existsb (fun e => seq_eqb h (snd e)) (u_auth u') = true).
+  { subst u'. cbn [u_auth]. rewrite dedupe_masks, existsb_app. cbn [existsb snd]. rewrite seq_eqb_refl. apply orb_true_r. }
+  apply existsb_exists in E as [e [Hin He]]. apply seq_eqb_eq in He. subst h.
+  unfold auth_masks. apply in_map_iff. exists e. auto.
+Qed.
+
+Lemma identify_preserves t now s id h :
+  Inv s -> ids_bounded s ->
+  Inv (fst (opIdentify t now s id h)) /\ ids_bounded (fst (opIdentify t now s id h)).
+Proof.
+  intros HI Hb. pose proof HI as [Hnd HC HL Hcoh]. unfold opIdentify. rewrite uget_nget.
+  destruct (nget id (s_users s)) as [u|] eqn:Eu; [|split; assumption].
+  destruct (addAuth now u h) as [u'|e] eqn:Ea; [|split; assumption].
+  rewrite uset_nset.
+  assert (Hne : forall h2, ~ In h2 (auth_masks u') -> recog_ever u' h2 = recog_ever u h2).
+  { intros h2 Hni. rewrite (addAuth_ever _ _ _ _ _ Ea).
+    destruct (seq_eqb h2 h) eqn:E; [|apply orb_false_r].
+    apply seq_eqb_eq in E. subst h2. exfalso. apply Hni. eapply addAuth_login. exact Ea. }
+  apply set_gen; cbn [with_users s_users s_hcache s_next].
+  - apply NoDup_nset. exact Hnd.
+  - apply CacheInv_users. exact HC.
+  - intros h2 j Hg. destruct (N.eq_dec j id) as [E|E]; [subst; rewrite nget_nset_same; discriminate|].
+    rewrite nget_nset_other by exact E. exact (HL _ _ Hg).
+  - intros j x Hj. cbn [with_users s_users s_next] in *. destruct (N.eq_dec j id) as [E|E]; [subst; exact (Hb _ _ Eu)|].
+    rewrite nget_nset_other in Hj by exact E. exact (Hb _ _ Hj).
+  - intros h2 j Hg Hni. destruct (Hcoh _ _ Hg) as [A|B].
+    + left. intros x Hx. destruct (N.eq_dec j id) as [E|E].
+      * subst j. rewrite nget_nset_same in Hx. inversion Hx; subst x. rewrite (Hne _ Hni). apply A. exact Eu.
+      * rewrite nget_nset_other in Hx by exact E. apply A. exact Hx.
+    + right. intros k x Hk Hx. destruct (N.eq_dec k id) as [E|E].
+      * subst k. rewrite nget_nset_same in Hx. inversion Hx; subst x. rewrite (Hne _ Hni). apply (B id); assumption.
+      * rewrite nget_nset_other in Hx by exact E. apply (B k); assumption.
+  - intros _ h2 j Hg Hnej Hm HD2. exfalso.
+    assert (Hr : recog_ever u' h2 = false) by (apply (HD2 id); [congruence|apply nget_nset_same]).
+    unfold recog_ever in Hr. rewrite Hm, orb_true_r in Hr. discriminate.
+Qed.
+
+(* ---- delUser / newUser ---- *)
+Lemma del_preserves s id :
+  Inv s -> ids_bounded s -> Inv (fst (delUser s id)) /\ ids_bounded (fst (delUser s id)).
+Proof.
+  intros HI Hb. pose proof HI as [Hnd HC HL Hcoh]. unfold delUser.
+  destruct (uget id (s_users s)); [|split; assumption].
+  destruct (invalidate_id_ok (with_users s (udel id (s_users s))) id (CacheInv_users _ _ HC))
+    as [s1 [Hinv [Hu [Hn [Hiff HC1]]]]].
+  rewrite Hinv. cbn [fst]. unfold with_users in Hu, Hn, Hiff. cbn [s_users s_next s_hcache] in Hu, Hn, Hiff.
+  assert (Hkeep : forall k x, nget k (s_users s1) = Some x -> nget k (s_users s) = Some x /\ k <> id).
+  { intros k x Hx. rewrite Hu, udel_ndel in Hx. destruct (N.eq_dec k id) as [E|E]; [subst; rewrite nget_ndel_same in Hx; discriminate|].
+    rewrite nget_ndel_other in Hx by exact E. auto. }
+  split.
+  - split.
+    + rewrite Hu. rewrite udel_ndel. apply NoDup_ndel. exact Hnd.
+    + exact HC1.
+    + intros h j Hg. apply Hiff in Hg as [Hg Hne]. rewrite Hu, udel_ndel, nget_ndel_other by exact Hne. exact (HL _ _ Hg).
+    + intros h j Hg. apply Hiff in Hg as [Hg Hne]. destruct (Hcoh _ _ Hg) as [A|B].
+      * left. intros x Hx. apply A. apply (Hkeep _ _ Hx).
+      * right. intros k x Hk Hx. apply (B k); [exact Hk|apply (Hkeep _ _ Hx)].
+  - intros j x Hj. rewrite Hn. apply Hkeep in Hj as [Hj _]. exact (Hb _ _ Hj).
+Qed.
+
+Lemma new_preserves s :
+  Inv s -> ids_bounded s -> Inv (fst (newUser s)) /\ ids_bounded (fst (newUser s)).
+Proof.
+  intros [Hnd [I2 I3 I5] HL Hcoh] Hb. unfold newUser. cbn [fst]. rewrite uset_nset.
+  assert (Hfresh : forall j x, nget j (s_users s) = Some x -> j <> s_next s + 1).
+  { intros j x Hj E. specialize (Hb _ _ Hj). lia. }
+  assert (Hget : forall k x, nget k (nset (s_next s + 1) (User [] [] [] false) (s_users s)) = Some x ->
+            nget k (s_users s) = Some x \/ x = User [] [] [] false).
+  { intros k x Hx. destruct (N.eq_dec k (s_next s + 1)) as [E|E].
+    - subst k. rewrite nget_nset_same in Hx. inversion Hx. auto.
+    - rewrite nget_nset_other in Hx by exact E. auto. }
+  split.
+  - split; cbn [s_users s_hcache s_hrev s_ncache s_nrev].
+    + apply NoDup_nset. exact Hnd.
+    + split; assumption.
+    + intros h j Hg. pose proof (HL _ _ Hg) as Hl. destruct (nget j (s_users s)) as [x|] eqn:Ex; [|congruence].
+      rewrite nget_nset_other; [rewrite Ex; discriminate|]. eapply Hfresh. exact Ex.
+    + intros h j Hg. destruct (Hcoh _ _ Hg) as [A|B].
+      * left. intros x Hx. apply Hget in Hx as [Hx|Hx]; [apply A; exact Hx|subst x; reflexivity].
+      * right. intros k x Hk Hx. apply Hget in Hx as [Hx|Hx]; [apply (B k); assumption|subst x; reflexivity].
+  - intros j x Hj. cbn [s_users s_next] in *.
+    destruct (N.eq_dec j (s_next s + 1)) as [E|E]; [subst; lia|].
+    rewrite nget_nset_other in Hj by exact E. specialize (Hb _ _ Hj). lia.
+Qed.
+
+(* ---- clearAuth ---- *)
 Lemma clear_preserves s id :
   Inv s -> ids_bounded s -> Inv (fst (opClearAuth s id)) /\ ids_bounded (fst (opClearAuth s id)).
 Proof.
-  intros HI Hb. pose proof HI as [Hnd HC Hcoh]. unfold opClearAuth. rewrite uget_nget.
+  intros HI Hb. pose proof HI as [Hnd HC HL Hcoh]. unfold opClearAuth. rewrite uget_nget.
   destruct (nget id (s_users s)) as [u|] eqn:Eu; [|split; assumption].
   destruct (invalidate_fold_ok (u_auth u) s HC) as [s1 [Hf [Hu1 [Hn1 [Hsub [Hnone HC1]]]]]].
-  rewrite Hf. cbn [fst]. rewrite uset_nset, Hu1. unfold with_users. split.
-  - split; cbn [s_users s_hcache].
-    + apply NoDup_nset. exact Hnd.
-    + destruct HC1 as [A B C]. split; assumption.
-    + intros h2 j Hg. pose proof (Hsub _ _ Hg) as Hold. destruct (Hcoh _ _ Hold) as [x [Hx Hr]].
-      destruct (N.eq_dec j id) as [E|E].
-      * subst j. rewrite Eu in Hx. inversion Hx; subst x. eexists. split; [cbn [s_users]; apply nget_nset_same|].
-        unfold recog0 in *. cbn [u_auth existsb orb]. unfold mask_match in *. cbn [u_masks].
-        apply orb_true_iff in Hr as [Hr|Hr]; [|exact Hr].
-        apply existsb_exists in Hr as [e [Hin He]]. apply seq_eqb_eq in He. subst h2.
-        rewrite (Hnone _ Hin) in Hg. discriminate.
-      * exists x. split; [cbn [s_users]; rewrite nget_nset_other by exact E; exact Hx|exact Hr].
-  - intros j x Hj. cbn [s_users s_next] in *. rewrite Hn1.
-    destruct (N.eq_dec j id) as [E|E]; [subst; exact (Hb _ _ Eu)|].
-    rewrite nget_nset_other in Hj by exact E. exact (Hb _ _ Hj).
+  rewrite Hf. cbn [fst]. rewrite uset_nset, Hu1.
+  assert (Hp : pruned (s_users s) (nset id (User (u_name u) (u_masks u) [] (u_secure u)) (s_users s))).
+  { apply (pruned_nset _ _ u); [exact Eu|]. intros h. unfold recog_ever, mask_match. cbn [u_auth u_masks existsb orb].
+    intro H. rewrite H. apply orb_true_r. }
+  split.
+  - apply (Inv_sub s); [exact HI|exact Hp|apply CacheInv_users; exact HC1|exact Hsub].
+  - apply (bounded_pruned s); [exact Hb|exact Hp|cbn [with_users s_next]; rewrite Hn1; apply N.le_refl].
 Qed.
 
 (* ---- histories ---- *)
-(* the domain: every lookup in the history is unambiguous when it happens
-   (at most one account recognises the hostmask) *)
-Definition op_ok (now : Z) (s : st) (o : op) : Prop :=
+Definition op_ok (t now : Z) (s : st) (o : op) : Prop :=
   match o with
-  | OLookup h => (length (recognised_by 0 now s h) <= 1)%nat
+  | OSet id u => snd (setUser t now s id u) = Ok tt -> set_dom s id u
   | _ => True
   end.
 
-Fixpoint run_ops (s : st) (ops : list (Z * op)) : st :=
+Fixpoint run_ops (t : Z) (s : st) (ops : list (Z * op)) : st :=
   match ops with
   | [] => s
-  | (now, o) :: r => run_ops (fst (step 0 now s o)) r
+  | (now, o) :: r => run_ops t (fst (step t now s o)) r
   end.
 
-Fixpoint hist_ok (s : st) (ops : list (Z * op)) : Prop :=
+Fixpoint hist_ok (t : Z) (s : st) (ops : list (Z * op)) : Prop :=
   match ops with
   | [] => True
-  | (now, o) :: r => op_ok now s o /\ hist_ok (fst (step 0 now s o)) r
+  | (now, o) :: r => op_ok t now s o /\ hist_ok t (fst (step t now s o)) r
   end.
 
-Lemma step_preserves now s o :
-  Inv s -> ids_bounded s -> op_ok now s o ->
-  Inv (fst (step 0 now s o)) /\ ids_bounded (fst (step 0 now s o)).
+Lemma step_preserves t now s o :
+  Inv s -> ids_bounded s -> op_ok t now s o ->
+  Inv (fst (step t now s o)) /\ ids_bounded (fst (step t now s o)).
 Proof.
   intros HI Hb Hok. destruct o as [h|id u|id| |id h|id]; cbn [step].
   - apply lookup_preserves; assumption.
-  - pose proof (set_preserves now s id u HI Hb) as H. destruct (setUser 0 now s id u). exact H.
+  - pose proof (set_preserves t now s id u HI Hb Hok) as H. destruct (setUser t now s id u). exact H.
   - pose proof (del_preserves s id HI Hb) as H. destruct (delUser s id). exact H.
   - pose proof (new_preserves s HI Hb) as H. destruct (newUser s). exact H.
-  - pose proof (auth_preserves now s id h HI Hb) as H. destruct (opAddAuth now s id h). exact H.
+  - pose proof (identify_preserves t now s id h HI Hb) as H. destruct (opIdentify t now s id h). exact H.
   - pose proof (clear_preserves s id HI Hb) as H. destruct (opClearAuth s id). exact H.
 Qed.
 
-Theorem history_preserves s ops :
-  Inv s -> ids_bounded s -> hist_ok s ops -> Inv (run_ops s ops) /\ ids_bounded (run_ops s ops).
+Theorem history_preserves t s ops :
+  Inv s -> ids_bounded s -> hist_ok t s ops -> Inv (run_ops t s ops) /\ ids_bounded (run_ops t s ops).
 Proof.
   revert s. induction ops as [|[now o] ops IH]; intros s HI Hb Hok; [auto|].
   cbn [run_ops]. cbn [hist_ok] in Hok. destruct Hok as [Ho Hr].
-  destruct (step_preserves now s o HI Hb Ho) as [HI' Hb']. apply IH; assumption.
+  destruct (step_preserves t now s o HI Hb Ho) as [HI' Hb']. apply IH; assumption.
 Qed.
 
-(* a cached answer is exactly what the cache-free recomputation gives *)
-Theorem cached_is_recomputed now s h id :
-  Inv s -> (length (recognised_by 0 now s h) <= 1)%nat ->
-  dict_get h (s_hcache s) = Some id ->
-  recognised_by 0 now s h = [id].
+(* ---- the lookup, case by case ---- *)
+Lemma invalidate_id_users s id s' : invalidate_id s id = Ok s' -> s_users s' = s_users s.
 Proof.
-  intros [Hnd _ Hcoh] Hlen Hg. destruct (Hcoh _ _ Hg) as [u [Hu Hr]].
-  assert (Hin : In id (recognised_by 0 now s h)).
-  { unfold recognised_by. apply in_map_iff. exists (id, u). split; [reflexivity|].
-    apply filter_In. split; [apply nget_In; exact Hu|]. cbn [snd]. rewrite recog_t0. exact Hr. }
-  destruct (recognised_by 0 now s h) as [|x [|y r]]; [destruct Hin| |cbn in Hlen; lia].
-  destruct Hin as [E|[]]. subst. reflexivity.
+  unfold invalidate_id.
+  destruct (match nget id (s_nrev s) with
+            | Some n => if dict_has n (s_ncache s)
+                        then Ok (St (s_users s) (s_hcache s) (s_hrev s) (sdel n (s_ncache s)) (ndel id (s_nrev s)) (s_next s))
+                        else Raise KeyError
+            | None => Ok s end) as [s1|e] eqn:E1; [|discriminate].
+  assert (Hu1 : s_users s1 = s_users s).
+  { destruct (nget id (s_nrev s)); [destruct (dict_has _ _)|]; inversion E1; reflexivity. }
+  cbn [bind]. destruct (nget id (s_hrev s1)) as [hs|]; [|intro H; inversion H; subst; exact Hu1].
+  fold (drop_loop s1 id). generalize (s_hcache s1). induction hs as [|h hs IH]; intro c; cbn [drop_loop].
+  - intro H. inversion H. exact Hu1.
+  - destruct (dict_has h c); [apply IH|discriminate].
 Qed.
 
-(* Cache coherence over arbitrary histories on the domain (no login timeout,
-   unambiguous lookups): whatever a lookup answers after any history from the
-   empty database is what a cache-free recomputation gives. *)
-Theorem lookup_coherent_on_domain ops now h id :
-  hist_ok init ops ->
-  (length (recognised_by 0 now (run_ops init ops) h) <= 1)%nat ->
-  snd (getUserId 0 now (run_ops init ops) h) = Ok id ->
-  recognised_by 0 now (run_ops init ops) h = [id].
+Lemma invalidate_h_users s h s' : invalidate_h s h = Ok s' -> s_users s' = s_users s.
 Proof.
-  intros Hok Hlen Hres.
+  unfold invalidate_h. destruct (dict_get h (s_hcache s)) as [id|]; [|intro H; inversion H; reflexivity].
+  destruct (nget id (s_hrev s)) as [l|]; [|discriminate].
+  destruct (existsb (seq_eqb h) l); [|discriminate].
+  intro H. apply invalidate_id_users in H. exact H.
+Qed.
+
+(* Either the cached account still accepts the hostmask and is the answer, or
+   the answer is the recomputation's, on a state whose accounts recognise
+   exactly the same hostmasks now (only expired logins were dropped). *)
+Lemma lookup_cases t now s h :
+  (exists id u, dict_get h (s_hcache s) = Some id /\ nget id (s_users s) = Some u /\
+                recog t now u h = true /\ snd (getUserId t now s h) = Ok id)
+  \/ (exists s2, snd (getUserId t now s h) = snd (lookup_miss t now s2 h) /\
+                 recognised_by t now s2 h = recognised_by t now s h).
+Proof.
+  unfold getUserId. destruct (dict_get h (s_hcache s)) as [id|] eqn:Eg; [|right; exists s; auto].
+  rewrite uget_nget. destruct (nget id (s_users s)) as [u|] eqn:Eu; [|right; exists s; auto].
+  pose proof (checkHostmask_truthy false t now u h) as Ht. cbv iota in Ht.
+  pose proof (checkHostmask_recog false t now u h true h) as Hr.
+  destruct (checkHostmask false t now u h true) as [u' x]. cbn [fst snd] in Ht, Hr.
+  cbv zeta. rewrite uset_nset.
+  assert (Hsame : recognised_by t now (with_users s (nset id u' (s_users s))) h = recognised_by t now s h).
+  { unfold recognised_by. cbn [with_users s_users]. apply (recognised_nset _ _ _ _ _ u); assumption. }
+  destruct (truthy x).
+  - left. exists id, u. cbn [snd]. auto.
+  - right. destruct (invalidate_h (with_users s (nset id u' (s_users s))) h) as [s2|e] eqn:Ei.
+    + exists s2. split; [reflexivity|]. rewrite <- Hsame. unfold recognised_by.
+      rewrite (invalidate_h_users _ _ _ Ei). reflexivity.
+    + eexists. split; [reflexivity|exact Hsame].
+Qed.
+
+(* For EVERY state, clock and timeout (no invariant needed): an answer is an
+   account that recognises the hostmask now - by a mask of its own, or by a
+   login from exactly that hostmask that has not timed out. *)
+Theorem answer_recognised t now s h id :
+  snd (getUserId t now s h) = Ok id ->
+  exists u, In (id, u) (s_users s) /\ recog t now u h = true.
+Proof.
+  intro H. destruct (lookup_cases t now s h) as [[j [u [_ [Hu [Hr Ha]]]]]|[s2 [Ha Hsame]]].
+  - rewrite H in Ha. inversion Ha; subst j. exists u. split; [apply nget_In; exact Hu|exact Hr].
+  - rewrite H in Ha. symmetry in Ha. apply miss_sound in Ha. rewrite Hsame in Ha.
+    assert (Hin : In id (recognised_by t now s h)) by (rewrite Ha; left; reflexivity).
+    unfold recognised_by in Hin. apply in_map_iff in Hin as [[i u] [Hi Hin]]. cbn in Hi. subst i.
+    apply filter_In in Hin as [Hin Hr]. exists u. auto.
+Qed.
+
+(* For every state: whoever is the one account recognising the hostmask is answered. *)
+Theorem lookup_complete t now s h id :
+  recognised_by t now s h = [id] -> snd (getUserId t now s h) = Ok id.
+Proof.
+  intro H. destruct (lookup_cases t now s h) as [[j [u [_ [Hu [Hr Ha]]]]]|[s2 [Ha Hsame]]].
+  - assert (Hin : In j (recognised_by t now s h)).
+    { unfold recognised_by. apply in_map_iff. exists (j, u). split; [reflexivity|].
+      apply filter_In. split; [apply nget_In; exact Hu|exact Hr]. }
+    rewrite H in Hin. destruct Hin as [E|[]]. subst j. exact Ha.
+  - rewrite Ha. apply miss_complete. rewrite Hsame. exact H.
+Qed.
+
+Theorem lookup_unknown_any t now s h :
+  recognised_by t now s h = [] -> snd (getUserId t now s h) = Raise KeyError.
+Proof.
+  intro H. destruct (lookup_cases t now s h) as [[j [u [_ [Hu [Hr Ha]]]]]|[s2 [Ha Hsame]]].
+  - assert (Hin : In j (recognised_by t now s h)).
+    { unfold recognised_by. apply in_map_iff. exists (j, u). split; [reflexivity|].
+      apply filter_In. split; [apply nget_In; exact Hu|exact Hr]. }
+    rewrite H in Hin. destruct Hin.
+  - rewrite Ha. apply miss_unknown. rewrite Hsame. exact H.
+Qed.
+
+(* Under the invariant an answer is the ONLY account recognising the hostmask *)
+Theorem answer_unique t now s h id :
+  Inv s -> snd (getUserId t now s h) = Ok id -> recognised_by t now s h = [id].
+Proof.
+  intros [Hnd _ _ Hcoh] H. destruct (lookup_cases t now s h) as [[j [u [Hg [Hu [Hr Ha]]]]]|[s2 [Ha Hsame]]].
+  - rewrite H in Ha. inversion Ha; subst j. unfold recognised_by.
+    apply (recognised_unique (fun x => recog t now x h) _ id u); try assumption.
+    intros k uk Hk Huk. destruct (Hcoh _ _ Hg) as [A|B].
+    + specialize (A u Hu). rewrite (recog_recog_ever _ _ _ _ Hr) in A. discriminate.
+    + specialize (B k uk Hk Huk). destruct (recog t now uk h) eqn:E; [|reflexivity].
+      rewrite (recog_recog_ever _ _ _ _ E) in B. discriminate.
+  - rewrite H in Ha. symmetry in Ha. apply miss_sound in Ha. rewrite Hsame in Ha. exact Ha.
+Qed.
+
+(* Cache coherence over arbitrary histories, for every login timeout and every
+   clock: after any history from the empty database in which setUser's overlap
+   test was sufficient (set_dom), a lookup answers id exactly when id is the one
+   account a cache-free recomputation finds. *)
+Theorem lookup_coherent_on_domain t ops now h id :
+  hist_ok t init ops ->
+  (snd (getUserId t now (run_ops t init ops) h) = Ok id <->
+   recognised_by t now (run_ops t init ops) h = [id]).
+Proof.
+  intro Hok.
   assert (Hb0 : ids_bounded init) by (intros j u Hj; discriminate).
-  destruct (history_preserves init ops Inv_init Hb0 Hok) as [HI _].
-  set (s := run_ops init ops) in *.
-  destruct (dict_get h (s_hcache s)) as [j|] eqn:Eg.
-  - unfold getUserId in Hres. rewrite Eg in Hres. cbn [snd] in Hres. inversion Hres; subst j.
-    eapply cached_is_recomputed; eassumption.
-  - destruct (getUserId 0 now s h) as [s' r] eqn:Eq. cbn [snd] in Hres. subst r.
-    eapply lookup_sound_miss; eassumption.
+  destruct (history_preserves t init ops Inv_init Hb0 Hok) as [HI _].
+  split; [apply answer_unique; exact HI|apply lookup_complete].
 Qed.
 
-(* ---- the pinned code violates coherence outside that domain ---- *)
-(* (a) login timeout: identify at t=1000, warm the cache, look up at t=1030 with timeout 10 *)
+(* ---- what is left outside the domain (finding F6) ---- *)
 Definition u1 : user := User [117;49] [[122;122;33;122;122;64;122;122]] [] false.
 Definition hAB : str := [97;98;33;120;64;121].
-Example expired_login_refuted :
-  let s0 := fst (newUser init) in
-  let s1 := fst (setUser 10 1000 s0 1 u1) in
-  let s2 := fst (opAddAuth 1000 s1 1 hAB) in
-  let s3 := fst (getUserId 10 1000 s2 hAB) in
-  snd (getUserId 10 1030 s3 hAB) = Ok 1 /\ recognised_by 10 1030 s3 hAB = [].
-Proof. vm_compute. auto. Qed.
+Definition uA : user := User [117;49] [[97;42;33;42;64;42]] [] false.     (* a*!*@* *)
+Definition uB : user := User [117;50] [[42;98;33;42;64;42]] [] false.     (* *b!*@* *)
 
-(* (b) overlapping globs: a*!*@* and *b!*@* are both accepted; ab!x@y is then ambiguous *)
+(* overlapping globs: a*!*@* and *b!*@* are both accepted; ab!x@y, cached for
+   account 1, is then answered although two accounts recognise it *)
+Definition overlap_ops : list (Z * op) :=
+  [(1000%Z, ONew); (1000%Z, ONew); (1000%Z, OSet 1 uA); (1000%Z, OLookup hAB); (1000%Z, OSet 2 uB)].
+
+Example overlap_accepted :
+  snd (setUser 0 1000 (run_ops 0 init [(1000%Z, ONew); (1000%Z, ONew); (1000%Z, OSet 1 uA); (1000%Z, OLookup hAB)]) 2 uB) = Ok tt.
+Proof. vm_compute. reflexivity. Qed.
+
 Example overlap_refuted :
-  let s0 := fst (newUser (fst (newUser init))) in
-  let s1 := fst (setUser 0 1000 s0 1 (User [117;49] [[97;42;33;42;64;42]] [] false)) in
-  let '(s2, r) := setUser 0 1000 s1 2 (User [117;50] [[42;98;33;42;64;42]] [] false) in
-  r = Ok tt /\ recognised_by 0 1000 s2 hAB = [1; 2].
+  snd (getUserId 0 1000 (run_ops 0 init overlap_ops) hAB) = Ok 1 /\
+  recognised_by 0 1000 (run_ops 0 init overlap_ops) hAB = [1; 2].
 Proof. vm_compute. auto. Qed.
 
-(* (c) a login from a hostmask another account owns: the cached answer stays *)
-Example login_vs_mask_refuted :
-  let s0 := fst (newUser (fst (newUser init))) in
-  let s1 := fst (setUser 0 1000 s0 1 (User [117;49] [hAB] [] false)) in
-  let s2 := fst (setUser 0 1000 s1 2 (User [117;50] [[122;122;33;122;122;64;122;122]] [] false)) in
-  let s3 := fst (getUserId 0 1000 s2 hAB) in
-  let s4 := fst (opAddAuth 1000 s3 2 hAB) in
-  snd (getUserId 0 1000 s4 hAB) = Ok 1 /\ recognised_by 0 1000 s4 hAB = [1; 2].
+Lemma overlap_outside_domain : ~ hist_ok 0 init overlap_ops.
+Proof.
+  intro H. cbn [hist_ok overlap_ops] in H. destruct H as [_ [_ [_ [_ [H _]]]]].
+  cbn [op_ok] in H. specialize (H overlap_accepted).
+  specialize (H hAB 1 uA).
+  assert (E : recog_ever uA hAB = false).
+  { apply H.
+    - discriminate.
+    - vm_compute. reflexivity.
+    - vm_compute. reflexivity.
+    - intros uo Huo. vm_compute in Huo. inversion Huo. vm_compute. reflexivity. }
+  vm_compute in E. discriminate.
+Qed.
+
+Theorem coherent_refuted :
+  exists t ops now h id,
+    ~ hist_ok t init ops /\
+    snd (getUserId t now (run_ops t init ops) h) = Ok id /\
+    recognised_by t now (run_ops t init ops) h <> [id].
+Proof.
+  exists 0%Z, overlap_ops, 1000%Z, hAB, 1. split; [exact overlap_outside_domain|].
+  destruct overlap_refuted as [A B]. split; [exact A|]. rewrite B. discriminate.
+Qed.
+
+(* ---- non-vacuity: the witnesses of the repaired findings are inside the domain ---- *)
+Lemma set_dom_fresh_mask s id u :
+  (forall h j uj, j <> id -> nget j (s_users s) = Some uj -> mask_match u h = true -> recog_ever uj h = false) ->
+  set_dom s id u.
+Proof. intros H h j uj Hne Hj Hm _. exact (H h j uj Hne Hj Hm). Qed.
+
+Ltac eval_users H :=
+  match type of H with nget _ ?us = Some _ => let v := eval vm_compute in us in change us with v in H end.
+
+(* F5: identify at t=1000 with timeout 10, warm the cache, look up at t=1030 *)
+Definition expired_ops : list (Z * op) :=
+  [(1000%Z, ONew); (1000%Z, OSet 1 u1); (1000%Z, OAuth 1 hAB); (1000%Z, OLookup hAB)].
+
+Example expired_in_domain : hist_ok 10 init expired_ops.
+Proof.
+  cbn [hist_ok expired_ops op_ok]. repeat split; try exact Logic.I.
+  intros _ h j uj Hne Hj. eval_users Hj. cbn [nget] in Hj.
+  destruct (N.eqb 1 j) eqn:E; [apply N.eqb_eq in E; congruence|discriminate].
+Qed.
+
+Example expired_login_not_answered :
+  dict_get hAB (s_hcache (run_ops 10 init expired_ops)) = Some 1 /\
+  snd (getUserId 10 1030 (run_ops 10 init expired_ops) hAB) = Raise KeyError /\
+  recognised_by 10 1030 (run_ops 10 init expired_ops) hAB = [].
 Proof. vm_compute. auto. Qed.
 
-(* non-vacuity of the domain: a history with registrations, a login, lookups *)
-Example hist_ok_example :
-  hist_ok init [(1000%Z, ONew); (1000%Z, OSet 1 u1); (1001%Z, OAuth 1 hAB); (1002%Z, OLookup hAB);
-                (1003%Z, OLookup [122;122;33;122;122;64;122;122]); (1004%Z, OClear 1); (1005%Z, OLookup hAB)].
-Proof. vm_compute. repeat split; lia. Qed.
+(* F22: ab!x@y is account 1's mask and cached; then it identifies as account 2 *)
+Definition u2z : user := User [117;50] [] [] false.
+Definition login_ops : list (Z * op) :=
+  [(1000%Z, ONew); (1000%Z, ONew); (1000%Z, OSet 1 (User [117;49] [hAB] [] false)); (1000%Z, OSet 2 u2z);
+   (1000%Z, OLookup hAB); (1000%Z, OAuth 2 hAB)].
+
+Example login_in_domain : hist_ok 0 init login_ops.
+Proof.
+  cbn [hist_ok login_ops op_ok]. repeat split; try exact Logic.I.
+  - intros _ h j uj Hne Hj. eval_users Hj. cbn [nget] in Hj.
+    destruct (N.eqb 1 j) eqn:E1; [apply N.eqb_eq in E1; congruence|].
+    destruct (N.eqb 2 j) eqn:E2; [|discriminate]. inversion Hj. intros _ _. reflexivity.
+  - intros _ h j uj Hne Hj Hm _. vm_compute in Hm. discriminate.
+Qed.
+
+Example login_elsewhere_not_answered :
+  dict_get hAB (s_hcache (run_ops 0 init [(1000%Z, ONew); (1000%Z, ONew); (1000%Z, OSet 1 (User [117;49] [hAB] [] false));
+                                          (1000%Z, OSet 2 u2z); (1000%Z, OLookup hAB)])) = Some 1 /\
+  (exists e, snd (getUserId 0 1000 (run_ops 0 init login_ops) hAB) = Raise e) /\
+  recognised_by 0 1000 (run_ops 0 init login_ops) hAB = [1; 2].
+Proof. vm_compute. split; [reflexivity|]. split; [eexists; reflexivity|reflexivity]. Qed.
